@@ -247,6 +247,24 @@ def rule_high_bounds(ctx: Ctx) -> RuleResult:
     return rr
 
 
+def rule_gray_ramp(ctx: Ctx) -> RuleResult:
+    """xterm's 256-colour gray ramp (entries 232..255) is the arithmetic progression 8 + 10*i and its colour cube
+    steps are 0, then 95 + 40*(i-1): closed forms the tables can be folded and compared with."""
+    p = ctx.p
+    rr = RuleResult("TAB", "C18.9", "_GRAY_STEPS_256 is xterm's ramp 8 + 10*i; _CUBE_STEPS_256 is 0, 95, 135, ... (95 + 40*(i-1))", floor=2)
+    m = p.modules[COMMON]
+    for nm, form, txt in (("_GRAY_STEPS_256", lambda i: 8 + 10 * i, "8 + 10*i"), ("_CUBE_STEPS_256", lambda i: 0 if i == 0 else 95 + 40 * (i - 1), "0, 95 + 40*(i-1)")):
+        tb = fold_module_name(p, m, nm)
+        rr.inst(nm, True, {"table": nm, "length": len(tb)})
+        bad = [(i, v, form(i)) for i, v in enumerate(tb) if v != form(i)]
+        if bad:
+            node = next((st for st in m.tree.body if isinstance(st, ast.Assign) and any(isinstance(t, ast.Name) and t.id == nm for t in st.targets)), None)
+            from ..core import Finding
+
+            rr.add(Finding("TAB", f"display.common.{nm}", f"{nm} entries {[(i, hex(v)) for i, v, _ in bad]}", f"{nm} deviates from xterm's {txt} at " + ", ".join(f"index {i}: {hex(v)} instead of {hex(w)}" for i, v, w in bad) + ": the RGB values reported for those palette entries, and the nearest-colour midpoints next to them, do not match the terminal", m.relpath, getattr(node, "lineno", 0), {}, False))
+    return rr
+
+
 def run(ctx: Ctx):
     p = ctx.p
     c = p.cls(f"{COMMON}.AttrSpec")
@@ -275,6 +293,7 @@ def run(ctx: Ctx):
         ),
         rule_depth_masks(ctx),
         rule_high_bounds(ctx),
+        rule_gray_ramp(ctx),
     ]
     return out
 
@@ -283,6 +302,7 @@ from ..mutants import Mut  # noqa: E402
 
 _C = "urwid/display/common.py"
 MUTANTS = [
+    Mut("gray-ramp-entry-typo", "urwid/display/common.py", None, "    0x8A,\n", "    0x84,\n", "TAB|display.common._GRAY_STEPS_256"),
     Mut("colors-true-by-mode-flag", "urwid/display/common.py", "AttrSpec.colors", "if self.__value & (_BG_TRUE_COLOR | _FG_TRUE_COLOR):", "if self.__value & _HIGH_TRUE_COLOR:", "TAB|display.common.AttrSpec.colors"),
     Mut("twin-colors-true-pair-reordered", "urwid/display/common.py", "AttrSpec.colors", "if self.__value & (_BG_TRUE_COLOR | _FG_TRUE_COLOR):", "if self.__value & (_FG_TRUE_COLOR | _BG_TRUE_COLOR):", twin=True),
     Mut("h256-accepted", "urwid/display/common.py", "_parse_color_256", "if num < 0 or num > 255:", "if num < 0 or num > _GRAY_START_256 + _GRAY_SIZE_256:", "TAB|display.common._parse_color_256"),
